@@ -157,12 +157,14 @@ class Arr:
             raise Undecided(".T on this array")
         return Arr([self.axes[1], self.axes[0]], lambda i, j: self.at(j, i), self.dtype)
 
-    def ravel(self):
-        """Row-major flat view.  Modelled through the ravel/reshape contract: the flat array
+    def ravel(self, order="C"):
+        """Row-major flat view (order="C"); any other order is an opaque flat array.  Modelled through the ravel/reshape contract: the flat array
         is an uninterpreted function of the flat position, linked to its source (`flat_of`);
         reshape(src.shape) of an array with the same flat length is the inverse bijection."""
         if self.ndim == 1 and not self.axes[0].masked:
             return self
+        if order != "C":
+            return fresh_array(engine().fresh("flat_order_" + str(order)), [self.size], self.dtype)
         if getattr(self, "_flat", None) is None:
             if self.ndim == 2 and not any(a.masked for a in self.axes):
                 # row-major: flat[c] = a[c // nx, c % nx]; only ever compared syntactically
@@ -266,6 +268,29 @@ class Arr:
 
     def __rpow__(self, o):
         return self._ew(o, lambda x, y: x ** y, True)
+
+    def _inplace(self, o, op):
+        """NumPy's augmented assignment writes into the SAME array object (callers see it)."""
+        r = op(self._s(), o)
+        if len(r.axes) != len(self.axes) or not all(x.same(y) for x, y in zip(r.axes, self.axes)):
+            raise ValueError("non-broadcastable output operand")
+        engine().store_check(self.dtype, r.dtype)
+        self._fn = r._fn
+        self._memo = {}
+        self.mutated = getattr(self, "mutated", 0) + 1
+        return self
+
+    def __iadd__(self, o):
+        return self._inplace(o, lambda a, b: a + b)
+
+    def __isub__(self, o):
+        return self._inplace(o, lambda a, b: a - b)
+
+    def __imul__(self, o):
+        return self._inplace(o, lambda a, b: a * b)
+
+    def __itruediv__(self, o):
+        return self._inplace(o, lambda a, b: a / b)
 
     def __neg__(self):
         me = self._s()
